@@ -1062,11 +1062,6 @@ Proof.
   exists [w_chain_cmt]. destruct chain_cmt_witness as [H1 [H2 H3]].
   split; [exact H1|]. split; [cbn [forallb]; rewrite H2; reflexivity|exact H3].
 Qed.
-Lemma regroup_idem_module_refuted :
-  exists ts, forallb ast_shape ts = true /\ forallb idem_ok ts = true /\
-    BadClass cmp15 Module ts = false /\
-    twice_differs Module ts /\ pipeline_twice_differs Module ts.
-Proof. exists w_dup_module. exact dup_module_witness. Qed.
 Lemma regroup_idem_crate_refuted :
   exists ts, forallb ast_shape ts = true /\ forallb idem_ok ts = true /\
     BadClass cmp15 GCrate ts = false /\ BadClass cmp15 One ts = false /\
@@ -1086,17 +1081,20 @@ Proof. exists w_order_one. exact order_one_witness. Qed.
 
 (* ------------------------------------------------------------------ *)
 (* 7. Module granularity on plain paths.
-   A flattened import is plain when it is a path without list whose last segment is not
-   self (so nest_trailing_self leaves it alone), without attributes or comment, and, when it
-   has a single segment, without alias (two first segments are matched by
-   equal_except_alias: the AliasClash class of C10). *)
+   A flattened import is plain when it is a path without list (it may end in self: the
+   import of io in std::io::{self, Read}), without attributes or comment, and, when it has
+   a single segment, without alias (two first segments are matched by equal_except_alias:
+   the AliasClash class of C10). *)
 Definition leafk (x : sseg) : tree := Node [x] None None None false.
 Definition R1 (q : list sseg) (x : sseg) (v : option N) : tree := Node (q ++ [x]) None v None false.
 Definition R2 (q : list sseg) (L : list tree) (v : option N) : tree := Node q (Some L) v None false.
 Definition is_slf (s : sseg) : bool := match s with Slf _ => true | _ => false end.
 (* what the last segment x of a plain path q::x must satisfy *)
 Definition okseg (q : list sseg) (x : sseg) : bool :=
-  negb (is_slf x) && (negb (is_nil q) || negb (is_some (salias x))).
+  negb (is_nil q) || negb (is_some (salias x)).
+(* nest_trailing_self on a plain path *)
+Definition nestR (q : list sseg) (x : sseg) (v : option N) : tree :=
+  if is_slf x then R2 q [leafk x] v else R1 q x v.
 
 Lemma prefix_len_common q : forall first a b,
   prefix_len first (map GS q ++ a) (map GS q ++ b) = length q + prefix_len (first && is_nil q) a b.
@@ -1259,6 +1257,12 @@ Proof.
   destruct l1; [constructor|]. cbn [app] in Hd. inversion Hd; subst. constructor; assumption.
 Qed.
 
+Definition items (r : tree) : list (list sseg) :=
+  match r with
+  | Node p None _ _ _ => [p]
+  | Node q (Some L) _ _ _ => map (fun t => q ++ pre t) L
+  end.
+
 Lemma rev_snoc {A} (l : list A) x : rev (l ++ [x]) = x :: rev l.
 Proof. apply rev_unit. Qed.
 
@@ -1280,10 +1284,18 @@ Proof.
   repeat split. destruct q; reflexivity.
 Qed.
 
-Lemma nest_R1 q x v : is_slf x = false -> nest_trailing_self (R1 q x v) = R1 q x v.
+Lemma nest_R1 q x v : nest_trailing_self (R1 q x v) = nestR q x v.
 Proof.
-  intros H. unfold R1. cbn [nest_trailing_self]. rewrite rev_snoc.
-  destruct x; try reflexivity. discriminate.
+  unfold R1, nestR. cbn [nest_trailing_self]. rewrite rev_snoc.
+  destruct x; try reflexivity. rewrite rev_involutive. reflexivity.
+Qed.
+Lemma nestR_facts q x v :
+  passthrough (nestR q x v) = false /\ path_is_empty (nestR q x v) = false /\
+  mkey (nestR q x v) = (vnorm v, q) /\ vis (nestR q x v) = v /\ items (nestR q x v) = [q ++ [x]].
+Proof.
+  unfold nestR. destruct (is_slf x).
+  - destruct (R2_facts q [x] v) as [H1 [H2 H3]]. cbn [map] in *. repeat split; assumption.
+  - destruct (R1_facts q x v) as [H1 [H2 H3]]. repeat split; assumption.
 Qed.
 
 Lemma flatten_R1 item q x v : flatten item (R1 q x v) = [R1 q x v].
@@ -1310,15 +1322,15 @@ Hypothesis asym : GtAsym cmp.
 (* the trees that Module produces on plain inputs *)
 Inductive mkind : tree -> Prop :=
 | MK_pass t : passthrough t = true -> normalize cmp t = t -> mkind t
-| MK_one q x v : okseg q x = true -> mkind (R1 q x v)
+| MK_one q x v : okseg q x = true -> is_slf x = false -> mkind (R1 q x v)
 | MK_list q xs v :
-    2 <= length xs -> forallb (okseg q) xs = true -> NoDup xs ->
+    (2 <= length xs \/ exists al, xs = [Slf al]) -> forallb (okseg q) xs = true -> NoDup xs ->
     Sorted (le_by cmp) (map leafk xs) -> mkind (R2 q (map leafk xs) v).
 
-Lemma okseg_inv q x : okseg q x = true -> is_slf x = false /\ (q = [] -> salias x = None).
+Lemma okseg_inv q x : okseg q x = true -> q = [] -> salias x = None.
 Proof.
-  unfold okseg. rewrite andb_true_iff, negb_true_iff. intros [H1 H2]. split; [exact H1|].
-  intros ->. cbn [is_nil negb orb] in H2. destruct (salias x); [discriminate|reflexivity].
+  unfold okseg. intros H2 ->. cbn [is_nil negb orb] in H2.
+  destruct (salias x); [discriminate|reflexivity].
 Qed.
 
 Lemma normalize_R1 q x v : is_slf x = false -> normalize cmp (R1 q x v) = R1 q x v.
@@ -1347,22 +1359,23 @@ Qed.
 
 Lemma mkind_normalize o : mkind o -> normalize cmp o = o.
 Proof.
-  intros [t _ H|q x v H|q xs v Hl Hok Hnd Hs].
+  intros [t _ H|q x v H Hx|q xs v [Hl|[al ->]] Hok Hnd Hs].
   - exact H.
-  - apply normalize_R1. apply okseg_inv in H. tauto.
+  - apply normalize_R1. exact Hx.
   - apply normalize_R2; assumption.
+  - apply normalize_selflist.
 Qed.
 
 (* one plain flattened tree meets a list in which nothing shares its key *)
 Lemma push_R1 res q x v :
-  is_slf x = false -> ~ In (vnorm v, q) (keys res) ->
-  add_flattened cmp SPModule res (R1 q x v) = res ++ [R1 q x v].
+  ~ In (vnorm v, q) (keys res) ->
+  add_flattened cmp SPModule res (R1 q x v) = res ++ [nestR q x v].
 Proof.
-  intros Hx Hk. unfold add_flattened.
+  intros Hk. unfold add_flattened.
   assert (Hn : find_index (fun t => share_prefix t (R1 q x v) SPModule) 0 res = None).
   { apply find_index_none_iff. apply no_share.
     destruct (R1_facts q x v) as [_ [_ ->]]. exact Hk. }
-  rewrite Hn, nest_R1 by exact Hx. reflexivity.
+  rewrite Hn, nest_R1. reflexivity.
 Qed.
 
 Lemma share_R1 r q x v :
@@ -1413,32 +1426,41 @@ Lemma add_tree_fix res o :
   mkind o -> (passthrough o = false -> ~ In (mkey o) (keys res)) ->
   add_tree cmp SPModule res o = res ++ [o].
 Proof.
-  intros [t Hp _|q x v Hok|q xs v Hl Hok Hnd Hs] Hk.
+  intros [t Hp _|q x v Hok Hx|q xs v Hl Hok Hnd Hs] Hk.
   - unfold add_tree. unfold passthrough in Hp. rewrite Hp. reflexivity.
   - destruct (R1_facts q x v) as [F1 [F2 F3]]. specialize (Hk F1). rewrite F3 in Hk.
     unfold add_tree. unfold passthrough in F1. rewrite F1, flatten_R1. cbn [fold_left].
-    apply push_R1; [|exact Hk]. apply okseg_inv in Hok. tauto.
+    rewrite push_R1 by exact Hk. unfold nestR. rewrite Hx. reflexivity.
   - destruct (R2_facts q xs v) as [F1 [F2 F3]]. specialize (Hk F1). rewrite F3 in Hk.
-    unfold add_tree. unfold passthrough in F1. rewrite F1, flatten_R2 by exact Hl.
-    destruct xs as [|x1 [|x2 xr]]; cbn [length] in Hl; try lia.
-    cbn [map fold_left]. cbn [forallb] in Hok. apply andb_true_iff in Hok. destruct Hok as [Ho1 Hok].
-    apply andb_true_iff in Hok. destruct Hok as [Ho2 _].
-    destruct (okseg_inv _ _ Ho1) as [S1 A1]. destruct (okseg_inv _ _ Ho2) as [S2 A2].
-    rewrite (push_R1 res q x1 v S1 Hk).
-    destruct (R1_facts q x1 v) as [G1 [G2 G3]].
-    rewrite (merge_into res _ [] q x2 v Hk G1 G2 G3).
-    assert (Hne : x1 <> x2).
-    { inversion Hnd as [|? ? Hnin _]; subst. intros ->. apply Hnin. left; reflexivity. }
-    assert (Hneb : sseg_eqb x1 x2 = false).
-    { destruct (sseg_eqb x1 x2) eqn:E; [|reflexivity]. apply sseg_eqb_eq in E. contradiction. }
-    rewrite merge_R1_R1; [|exact Hneb|].
-    + assert (Hs2 : Sorted (le_by cmp) (map leafk [x1; x2])).
-      { change (x1 :: x2 :: xr) with ([x1; x2] ++ xr) in Hs. rewrite map_app in Hs.
-        eapply Sorted_app_l. exact Hs. }
-      change [leafk x1; leafk x2] with (map leafk [x1; x2]).
-      rewrite sorted_sort_id by exact Hs2.
-      apply (rebuild_tail res q v xr [x1; x2] Hk). exact Hs.
-    + intros Hq. rewrite sseg_eea_noalias; auto.
+    unfold add_tree. pose proof F1 as F1'. unfold passthrough in F1'. rewrite F1'.
+    destruct Hl as [Hl|[al ->]].
+    + rewrite flatten_R2 by exact Hl.
+      destruct xs as [|x1 [|x2 xr]]; cbn [length] in Hl; try lia.
+      cbn [map fold_left]. cbn [forallb] in Hok. apply andb_true_iff in Hok. destruct Hok as [Ho1 Hok].
+      apply andb_true_iff in Hok. destruct Hok as [Ho2 _].
+      pose proof (okseg_inv _ _ Ho1) as A1. pose proof (okseg_inv _ _ Ho2) as A2.
+      rewrite (push_R1 res q x1 v Hk). unfold nestR. destruct (is_slf x1) eqn:S1.
+      * change [leafk x1] with (map leafk [x1]).
+        apply (rebuild_tail res q v (x2 :: xr) [x1] Hk). exact Hs.
+      * destruct (R1_facts q x1 v) as [G1 [G2 G3]].
+        rewrite (merge_into res _ [] q x2 v Hk G1 G2 G3).
+        assert (Hne : x1 <> x2).
+        { inversion Hnd as [|? ? Hnin _]; subst. intros ->. apply Hnin. left; reflexivity. }
+        assert (Hneb : sseg_eqb x1 x2 = false).
+        { destruct (sseg_eqb x1 x2) eqn:E; [|reflexivity]. apply sseg_eqb_eq in E. contradiction. }
+        rewrite merge_R1_R1; [|exact Hneb|].
+        -- assert (Hs2 : Sorted (le_by cmp) (map leafk [x1; x2])).
+           { change (x1 :: x2 :: xr) with ([x1; x2] ++ xr) in Hs. rewrite map_app in Hs.
+             eapply Sorted_app_l. exact Hs. }
+           change [leafk x1; leafk x2] with (map leafk [x1; x2]).
+           rewrite sorted_sort_id by exact Hs2.
+           apply (rebuild_tail res q v xr [x1; x2] Hk). exact Hs.
+        -- intros Hq. rewrite sseg_eea_noalias; auto.
+    + cbn [map]. rewrite (flatten_self false (R2 q [leafk (Slf al)] v)) by reflexivity.
+      cbn [fold_left]. unfold add_flattened.
+      assert (Hn : find_index (fun t => share_prefix t (R2 q [leafk (Slf al)] v) SPModule) 0 res = None).
+      { apply find_index_none_iff. apply no_share. cbn [map] in F3. rewrite F3. exact Hk. }
+      rewrite Hn. reflexivity.
 Qed.
 
 Lemma regroup_fix_gen O : forall res,
@@ -1453,7 +1475,7 @@ Proof.
       rewrite <- app_assoc. exact Hnd.
     + intros Hp. unfold keys in Hnd. rewrite flat_map_app in Hnd. cbn [flat_map] in Hnd.
       assert (Hne : path_is_empty o = false).
-      { destruct Ho as [t Hpt _|q x v _|q xs v _ _ _ _].
+      { destruct Ho as [t Hpt _|q x v _ _|q xs v _ _ _ _].
         - rewrite Hp in Hpt. discriminate.
         - apply R1_facts.
         - apply R2_facts. }
@@ -1488,11 +1510,6 @@ Definition mod_plain (f : tree) : bool :=
   end.
 Definition flats (es : list ev) : list tree :=
   flat_map (fun e => match e with EFlat f => [f] | EPass _ => [] end) es.
-Definition items (r : tree) : list (list sseg) :=
-  match r with
-  | Node p None _ _ _ => [p]
-  | Node q (Some L) _ _ _ => map (fun t => q ++ pre t) L
-  end.
 Definition fresh (f : tree) (res : list tree) : Prop :=
   forall r, In r res -> passthrough r = false -> same_visibility r f = true ->
             ~ In (pre f) (items r).
@@ -1556,7 +1573,7 @@ Lemma mkind_sorted q xs v :
 Proof.
   intros Hl Hok Hnd. destruct (sort_leafk xs) as [xs' [E HP]]. exists xs'.
   split; [exact E|]. split; [exact HP|]. apply MK_list.
-  - rewrite <- (Permutation_length HP). exact Hl.
+  - left. rewrite <- (Permutation_length HP). exact Hl.
   - rewrite <- (forallb_perm _ _ _ HP). exact Hok.
   - eapply Permutation_NoDup; eauto.
   - rewrite <- E. apply sort_by_sorted. exact asym.
@@ -1583,7 +1600,7 @@ Proof.
                                  mkind cmp (R2 q (map leafk xs') (vis r)) /\
                                  vnorm (vis r) = vnorm vf /\
                                  forall z, In z xs' -> z = y \/ In (q ++ [z]) (items r)).
-    { destruct Hr as [t Hpt _|q' x v Hox|q' xs v Hl Hok Hndx Hs].
+    { destruct Hr as [t Hpt _|q' x v Hox Hsx|q' xs v Hl Hok Hndx Hs].
       - rewrite Rp in Hpt. discriminate.
       - destruct (R1_facts q' x v) as [_ [_ Gm]]. rewrite Gm in Rm. inversion Rm as [[Hv Hq]].
         subst q'. cbn [vis].
@@ -1593,7 +1610,7 @@ Proof.
           - cbn [items R1 pre]. left; reflexivity. }
         assert (Hneb : sseg_eqb x y = false).
         { destruct (sseg_eqb x y) eqn:E; [|reflexivity]. apply sseg_eqb_eq in E. contradiction. }
-        destruct (okseg_inv _ _ Hox) as [_ Ax]. destruct (okseg_inv _ _ Hoy) as [_ Ay].
+        pose proof (okseg_inv _ _ Hox) as Ax. pose proof (okseg_inv _ _ Hoy) as Ay.
         rewrite merge_R1_R1; [|exact Hneb|intros Hq; rewrite sseg_eea_noalias; auto].
         change [leafk x; leafk y] with (map leafk [x; y]).
         destruct (mkind_sorted q [x; y] v) as [xs' [E [HP Hm]]].
@@ -1613,7 +1630,7 @@ Proof.
         replace (map leafk xs ++ [leafk y]) with (map leafk (xs ++ [y]))
           by (rewrite map_app; reflexivity).
         destruct (mkind_sorted q (xs ++ [y]) v) as [xs' [E [HP Hm]]].
-        + rewrite app_length. cbn [length]. lia.
+        + rewrite app_length. cbn [length]. destruct Hl as [Hl|[al ->]]; cbn [length]; lia.
         + rewrite forallb_app. cbn [forallb]. rewrite Hok, Hoy. reflexivity.
         + apply NoDup_snoc; assumption.
         + exists xs'. rewrite E. split; [reflexivity|]. split; [exact Hm|]. split; [cbn [R1 R2 vis]; congruence|].
@@ -1642,20 +1659,27 @@ Proof.
         -- apply (Hf2 r Hin Rp Hsv'). rewrite <- Ez. exact Hi.
       * apply (Hf2 r0); auto. rewrite E1. apply in_or_app. right. right. exact Hr0.
   - pose proof (proj1 (find_index_none_iff _ _ _) Ef) as Hns.
-    rewrite nest_R1 by (apply okseg_inv in Hoy; tauto).
+    rewrite nest_R1. destruct (nestR_facts q y vf) as [Np [Ne [Nm [Nv Ni]]]].
     split.
     + split.
-      * apply Forall_app. split; [exact Hk|]. constructor; [|constructor]. apply MK_one. exact Hoy.
-      * rewrite keys_app. cbn [keys flat_map]. rewrite (keyof_nonpass _ Fp Fe), Fm, app_nil_r.
+      * apply Forall_app. split; [exact Hk|]. constructor; [|constructor].
+        unfold nestR. destruct (is_slf y) eqn:Sy.
+        -- change [leafk y] with (map leafk [y]). apply MK_list.
+           ++ right. destruct y; try discriminate. eexists; reflexivity.
+           ++ cbn [forallb]. rewrite Hoy. reflexivity.
+           ++ constructor; [intros []|constructor].
+           ++ cbn [map]. repeat constructor.
+        -- apply MK_one; assumption.
+      * rewrite keys_app. cbn [keys flat_map]. rewrite (keyof_nonpass _ Np Ne), Nm, app_nil_r.
         apply NoDup_snoc; [exact Hnd|]. intros Hin. apply in_keys in Hin.
         destruct Hin as [r [Hr [H1 [H2 H3]]]].
         pose proof (Hns r Hr) as Hc. cbn beta in Hc.
         rewrite (share_R1 r q y vf H1 H2 H3) in Hc. discriminate Hc.
     + intros f2 Hd Hf2 r0 Hr0 Hp0 Hsv Hin0.
       apply in_app_or in Hr0. destruct Hr0 as [Hr0|[<-|[]]]; [apply (Hf2 r0); auto|].
-      cbn [items R1] in Hin0. destruct Hin0 as [E|[]].
-      unfold flat_dup in Hd. rewrite Hsv in Hd. cbn [R1 pre] in Hd, E.
-      rewrite E, list_eqb_sseg_refl in Hd. discriminate.
+      rewrite Ni in Hin0. destruct Hin0 as [E|[]].
+      unfold flat_dup in Hd. unfold same_visibility in Hsv, Hd. rewrite Nv in Hsv.
+      cbn [R1 vis pre] in Hd. rewrite Hsv in Hd. rewrite E, list_eqb_sseg_refl in Hd. discriminate.
 Qed.
 
 Lemma step_pass res t :
@@ -1829,6 +1853,16 @@ Lemma dup_module_plain :
   forallb mod_plain (flat_list (map (normalize cmp15) w_dup_module)) = true /\
   nodup_flat (flat_list (map (normalize cmp15) w_dup_module)) = false.
 Proof. vm_compute. split; reflexivity. Qed.
+
+Lemma regroup_idem_module_refuted :
+  exists ts, forallb ast_shape ts = true /\ forallb idem_ok ts = true /\
+    BadClass cmp15 Module ts = false /\
+    forallb mod_plain (flat_list (map (normalize cmp15) ts)) = true /\
+    twice_differs Module ts /\ pipeline_twice_differs Module ts.
+Proof.
+  exists w_dup_module. destruct dup_module_witness as [H1 [H2 [H3 H4]]].
+  split; [exact H1|]. split; [exact H2|]. split; [exact H3|]. split; [apply dup_module_plain|exact H4].
+Qed.
 
 (* ------------------------------------------------------------------ *)
 (* 9. corollaries of C11 for the sorts of reorder.rs (mod / extern crate declarations, names) *)
